@@ -29,6 +29,16 @@ CHECKS = {
    text="Generated projects (grammar programs with hostile trivia, character mutations, example-source fragments, extreme integers as directive/operator/option arguments, import graphs incl. cycles and missing files, mutually dependent segments, nested loops with edge-of-range branches, hostile names, nesting to depth 64) go through parse, codegen as `mos build`, merge/listing/symbols, format and codegen in the language server's analysis mode inside worker sub-processes. A panic, an abnormal worker exit, a repeated pass-state digest (deterministic proof of non-termination), 'neither output nor diagnostic' or a diagnostic span outside the project is a violation.",
    note="A watchdog kill or reaching the pass bound without a digest repeat is reported as inconclusive, never as a violation; .loop/.align/bank-size arguments above 70000 and nesting deeper than 64 are excluded by construction (termination not decidable without a clock / unbounded recursion). Invalid UTF-8 file contents are only reachable through the CLI (covered by C04's CLI runs, not here).",
    ref="§5 C06"),
+ "C12": dict(
+   technique="proptest over generated programs x trivia x formatter options; metamorphic oracle between input and formatted output (parse-clean, token skeleton, comment multiset/order, bytes and diagnostics)",
+   text="Error-free generated programs with comments placed in every kind of trivia slot and random formatter options are formatted in-process; the output must parse without diagnostics, keep the token sequence (text with comments/whitespace stripped, case folded), keep every comment in order and assemble to the same segment bytes and diagnostic messages. Comments carry serial numbers so a lost comment names the slot it stood in; slots/layouts that trigger recorded findings are switched off in the clean campaign and confirmed one campaign each.",
+   note="In-process formatter (mos-core::formatting::format) on every file of the project; the CLI half of the property (`mos format` rewrites each file / leaves all untouched on a parse error) is checked by the CLI campaign of this check when MOS_BIN is available. Token equality is approximated by the comment/whitespace-stripped skeleton plus byte equality.",
+   ref="§5 C12"),
+ "C13": dict(
+   technique="proptest, idempotence (round-trip) oracle format(format(p)) == format(p)",
+   text="Same generator as C12 (programs x trivia x options); the formatter output is formatted again with the same options and must be unchanged for every file. Layouts that trigger the three recorded findings are excluded from the clean campaign and confirmed separately.",
+   note="In-process formatter; inputs whose first formatting does not parse are C12's business and are not judged here.",
+   ref="§5 C13"),
 }
 
 NOT_YET = {
